@@ -110,7 +110,7 @@ pub struct Compile {
 
 fn run_rustc(ex: &Externs, dir: &Path, main_rs: &str, extra: &[&str], timeout_s: u64) -> Compile {
     let mut cmd = Command::new("rustc");
-    cmd.args(ex.args()).args(extra).arg("--error-format=json").arg("--cap-lints=allow").arg(main_rs).current_dir(dir).stdin(Stdio::null()).stdout(Stdio::null()).stderr(Stdio::piped());
+    cmd.args(ex.args()).args(extra).arg("--error-format=json").arg("-Awarnings").arg(main_rs).current_dir(dir).stdin(Stdio::null()).stdout(Stdio::null()).stderr(Stdio::piped());
     let mut child = match cmd.spawn() {
         Ok(c) => c,
         Err(e) => return Compile { ok: false, errors: vec![], timed_out: true, raw_tail: format!("spawn rustc: {e}") },
